@@ -40,7 +40,7 @@ func ruleR45(c *Ctx) {
 			props = append(props, "C09")
 		}
 		for _, mn := range []string{"Search", "Delete"} {
-			u := tk.Methods[mn]
+			u := m.effectiveMethod(tk, mn)
 			if u == nil {
 				continue
 			}
